@@ -90,4 +90,278 @@ theorem go_step (a : Bytes) (start lim fuel i : Nat) (out : Bytes) :
       if i - start ≥ lim then none else useNext (decodeStringGo a start lim fuel) i out (decNext a i out) := by
   rw [decodeStringGo_succ, decStep_eq]
 
+/-! ## properties of one iteration -/
+
+/-- at a zero byte the loop just copies it (or runs off the end) -/
+theorem decNext_zero (a : Bytes) (i : Nat) (out : Bytes) (h : a.getD i 0 = 0) :
+    decNext a i out = if i ≥ a.size then none else some (some (i + 1, out.push 0)) := by
+  unfold decNext
+  simp [h]
+
+theorem getD_past (a : Bytes) (i : Nat) (h : a.size ≤ i) : a.getD i 0 = 0 := by
+  rw [Array.getD_eq_getD_getElem?, Array.getElem?_eq_none h]; rfl
+
+/-- beyond the end of the buffer the loop fails -/
+theorem decNext_past (a : Bytes) (i : Nat) (out : Bytes) (h : a.size ≤ i) : decNext a i out = none := by
+  rw [decNext_zero a i out (getD_past a i h), if_pos h]
+
+/-- the loop moves forward, by at most 12 -/
+theorem decNext_fwd (a : Bytes) (i : Nat) (out : Bytes) (p : Nat × Bytes) (h : decNext a i out = some (some p)) :
+    i < p.1 ∧ p.1 ≤ i + 12 := by
+  unfold decNext at h
+  dsimp only at h
+  split at h
+  · cases h
+  · split at h
+    · split at h
+      · split at h
+        · cases h
+        · split at h
+          · split at h
+            · cases h
+            · split at h
+              · cases h
+              · split at h
+                · cases h
+                · split at h
+                  · cases h
+                  · cases h; exact ⟨by simp, by simp⟩
+          · split at h
+            · cases h
+            · cases h; exact ⟨by simp, by simp⟩
+      · split at h
+        · cases h
+        · cases h; exact ⟨by simp, by simp⟩
+    · split at h
+      · cases h
+      · cases h; exact ⟨by simp, by simp⟩
+
+theorem hex4_shift (a b : Bytes) (k : Nat) (hg : ∀ x, a.getD (x + k) 0 = b.getD x 0) (x : Nat) :
+    hex4 a (x + k) = hex4 b x := by
+  unfold hex4
+  rw [Nat.add_right_comm x k 1, Nat.add_right_comm x k 2, Nat.add_right_comm x k 3, hg, hg, hg, hg]
+
+theorem quoteDist_shift (a b : Bytes) (k : Nat) (hg : ∀ x, a.getD (x + k) 0 = b.getD x 0) (x : Nat) :
+    quoteDist a (x + k) = quoteDist b x := by
+  unfold quoteDist
+  have : (fun d => a.getD (x + k + d) 0 == 34) = (fun d => b.getD (x + d) 0 == 34) := by
+    funext d; rw [Nat.add_right_comm x k d, hg]
+  rw [this]
+
+def shiftNx (k : Nat) : Option (Option (Nat × Bytes)) → Option (Option (Nat × Bytes)) :=
+  Option.map (Option.map (fun p => (p.1 + k, p.2)))
+
+/-- the iteration only depends on the bytes from `i` on: if `a` read at `x + k` is `b` read at `x` (for every `x`,
+    with the "past the end" test agreeing at `i`), the iteration on `a` at `i + k` is the one on `b` at `i`, shifted -/
+theorem decNext_shift (a b : Bytes) (k : Nat) (hg : ∀ x, a.getD (x + k) 0 = b.getD x 0) (i : Nat) (out : Bytes)
+    (hs : i + k ≥ a.size ↔ i ≥ b.size) :
+    decNext a (i + k) out = shiftNx k (decNext b i out) := by
+  unfold decNext
+  dsimp only
+  rw [Nat.add_right_comm i k 1, Nat.add_right_comm i k 2, Nat.add_right_comm i k 6, Nat.add_right_comm i k 7,
+    Nat.add_right_comm i k 8, Nat.add_right_comm i k 12]
+  simp only [hg, hex4_shift a b k hg, quoteDist_shift a b k hg]
+  split
+  · rfl
+  · split
+    · split
+      · split
+        · rfl
+        · split
+          · split
+            · rfl
+            · split
+              · rfl
+              · split
+                · rfl
+                · cases encodeUTF8 ((hex4 b (i + 2) <<< 10 + 4238344192 ||| hex4 b (i + 8) + 4294910976) + 65536) with
+                  | none => rfl
+                  | some bs => simp [shiftNx]
+          · cases encodeUTF8 (hex4 b (i + 2)) with
+            | none => rfl
+            | some bs => simp [shiftNx]
+      · split
+        · rfl
+        · simp [shiftNx]
+    · by_cases hb : i ≥ b.size
+      · rw [if_pos (hs.mpr hb), if_pos hb]; rfl
+      · rw [if_neg (fun h => hb (hs.mp h)), if_neg hb]; simp [shiftNx]
+
+theorem decNext_congr (a b : Bytes) (hg : ∀ x, a.getD x 0 = b.getD x 0) (i : Nat) (out : Bytes)
+    (hs : i ≥ a.size ↔ i ≥ b.size) : decNext a i out = decNext b i out := by
+  have := decNext_shift a b 0 hg i out hs
+  rw [Nat.add_zero] at this
+  rw [this]
+  cases decNext b i out with
+  | none => rfl
+  | some o => cases o <;> rfl
+
+/-! ## the loop -/
+
+theorem go_zero' (a : Bytes) (start lim i : Nat) (out : Bytes) : decodeStringGo a start lim 0 i out = none := rfl
+
+def shiftR (k : Nat) : Option (Bytes × Nat) → Option (Bytes × Nat) := Option.map (fun r => (r.1, r.2 + k))
+
+/-- shifting the buffer, the start and the position by `k` shifts the closing quote by `k` -/
+theorem go_shift (a b : Bytes) (k : Nat) (hg : ∀ x, a.getD (x + k) 0 = b.getD x 0)
+    (hs : ∀ i, i + k ≥ a.size ↔ i ≥ b.size) (start lim : Nat) :
+    ∀ (fuel i : Nat) (out : Bytes),
+      decodeStringGo a (start + k) lim fuel (i + k) out = shiftR k (decodeStringGo b start lim fuel i out) := by
+  intro fuel
+  induction fuel with
+  | zero => intro i out; rfl
+  | succ f ih =>
+    intro i out
+    rw [go_step, go_step, Nat.add_sub_add_right, decNext_shift a b k hg i out (hs i)]
+    split
+    · rfl
+    · cases decNext b i out with
+      | none => rfl
+      | some o =>
+        cases o with
+        | none => rfl
+        | some p => exact ih p.1 p.2
+
+/-- with enough fuel to reach the end of the buffer, the fuel does not matter -/
+theorem go_fuel (a : Bytes) (start lim : Nat) :
+    ∀ (fuel fuel' i : Nat) (out : Bytes), a.size < fuel + i → a.size < fuel' + i →
+      decodeStringGo a start lim fuel i out = decodeStringGo a start lim fuel' i out := by
+  have hpast : ∀ (fuel i : Nat) (out : Bytes), a.size ≤ i → decodeStringGo a start lim fuel i out = none := by
+    intro fuel i out h
+    cases fuel with
+    | zero => rfl
+    | succ f => rw [go_step, decNext_past a i out h]; split <;> rfl
+  intro fuel
+  induction fuel with
+  | zero =>
+    intro fuel' i out h1 h2
+    rw [hpast 0 i out (by omega), hpast fuel' i out (by omega)]
+  | succ f ih =>
+    intro fuel' i out h1 h2
+    cases fuel' with
+    | zero => rw [hpast 0 i out (by omega), hpast (f + 1) i out (by omega)]
+    | succ f' =>
+      rw [go_step, go_step]
+      split
+      · rfl
+      · cases hn : decNext a i out with
+        | none => rfl
+        | some o =>
+          cases o with
+          | none => rfl
+          | some p =>
+            have := (decNext_fwd a i out p hn).1
+            exact ih f' p.1 p.2 (by omega) (by omega)
+
+/-- a successful answer does not depend on the limit, as long as the closing quote is below it -/
+theorem go_lim (a : Bytes) (start lim lim' : Nat) :
+    ∀ (fuel i : Nat) (out res : Bytes) (c' : Nat), decodeStringGo a start lim fuel i out = some (res, c') →
+      c' - start < lim' → decodeStringGo a start lim' fuel i out = some (res, c') := by
+  intro fuel
+  induction fuel with
+  | zero => intro i out res c' h; cases h
+  | succ f ih =>
+    intro i out res c' h hl
+    have hic := (decode_bounds a start lim (f + 1) i out res c' h).1
+    rw [go_step] at h ⊢
+    rw [if_neg (by omega)]
+    split at h
+    · cases h
+    · cases hn : decNext a i out with
+      | none => rw [hn] at h; cases h
+      | some o =>
+        rw [hn] at h
+        cases o with
+        | none => exact h
+        | some p => exact ih p.1 p.2 res c' h hl
+
+/-- appended zero bytes: once the scan is in them it never succeeds -/
+theorem go_zeros (a : Bytes) (n start lim : Nat) :
+    ∀ (fuel i : Nat) (out : Bytes), a.size ≤ i →
+      decodeStringGo (a ++ Array.replicate n 0) start lim fuel i out = none := by
+  intro fuel
+  induction fuel with
+  | zero => intro i out h; rfl
+  | succ f ih =>
+    intro i out h
+    have hz : (a ++ Array.replicate n (0 : UInt8)).getD i 0 = 0 := by
+      simp only [Array.getD_eq_getD_getElem?, Array.getElem?_append, Array.getElem?_replicate]
+      rw [if_neg (by omega)]
+      split <;> rfl
+    rw [go_step, decNext_zero _ i out hz]
+    split
+    · rfl
+    · split
+      · rfl
+      · exact ih (i + 1) _ (by omega)
+
+theorem getD_pad (a : Bytes) (n x : Nat) : (a ++ Array.replicate n (0 : UInt8)).getD x 0 = a.getD x 0 := by
+  simp only [Array.getD_eq_getD_getElem?, Array.getElem?_append, Array.getElem?_replicate]
+  by_cases h : x < a.size
+  · rw [if_pos h]
+  · rw [if_neg h, Array.getElem?_eq_none (by omega)]
+    split <;> rfl
+
+/-- appended zero bytes never change the outcome of the loop -/
+theorem go_pad (a : Bytes) (n start lim : Nat) :
+    ∀ (fuel i : Nat) (out : Bytes),
+      decodeStringGo (a ++ Array.replicate n 0) start lim fuel i out = decodeStringGo a start lim fuel i out := by
+  intro fuel
+  induction fuel with
+  | zero => intro i out; rfl
+  | succ f ih =>
+    intro i out
+    by_cases hi : a.size ≤ i
+    · rw [go_zeros a n start lim (f + 1) i out hi, go_step, decNext_past a i out hi]
+      split <;> rfl
+    · rw [go_step, go_step, decNext_congr _ a (getD_pad a n) i out (by simp only [Array.size_append, Array.size_replicate]; omega)]
+      split
+      · rfl
+      · cases decNext a i out with
+        | none => rfl
+        | some o =>
+          cases o with
+          | none => rfl
+          | some p => exact ih p.1 p.2
+
+/-! ## `decodeString` -/
+
+/-- Decoding the string that starts at `buf[idx]` in the whole message is decoding at `1` in the suffix `buf[idx:]`:
+    same decoded bytes, closing quote shifted by `idx`.  No hypothesis on `idx` or the limit. -/
+theorem decodeString_suffix (buf : Bytes) (idx lim : Nat) :
+    decodeString buf (idx + 1) lim = shiftR idx (decodeString (buf.extract idx buf.size) 1 lim) := by
+  have hg : ∀ x, buf.getD (x + idx) 0 = (buf.extract idx buf.size).getD x 0 := by
+    intro x
+    simp only [Array.getD_eq_getD_getElem?, Array.getElem?_extract]
+    by_cases h : x < buf.size - idx
+    · rw [if_pos (by omega), Nat.add_comm]
+    · rw [if_neg (by omega), Array.getElem?_eq_none (by omega)]
+  have hs : ∀ i, i + idx ≥ buf.size ↔ i ≥ (buf.extract idx buf.size).size := by
+    intro i; simp only [Array.size_extract]; omega
+  unfold decodeString
+  rw [Nat.add_comm idx 1, go_shift buf _ idx hg hs 1 lim (buf.size + 64) 1 #[],
+    go_fuel _ 1 lim (buf.size + 64) ((buf.extract idx buf.size).size + 64) 1 #[]
+      (by simp only [Array.size_extract]; omega) (by omega)]
+
+/-- The padding of the Go caller (zero bytes appended to the buffer) never changes the answer of the decoder: the scalar
+    model's "ran off the end" rule and a run through appended zeros both end in `none`. -/
+theorem decodeString_pad (a : Bytes) (n start lim : Nat) :
+    decodeString (a ++ Array.replicate n 0) start lim = decodeString a start lim := by
+  unfold decodeString
+  rw [go_pad, go_fuel a start lim ((a ++ Array.replicate n (0 : UInt8)).size + 64) (a.size + 64) start #[]
+    (by simp only [Array.size_append, Array.size_replicate]; omega) (by omega)]
+
+/-- a successful answer does not depend on the limit -/
+theorem decodeString_lim (a : Bytes) (start lim lim' : Nat) (dec : Bytes) (close : Nat)
+    (h : decodeString a start lim = some (dec, close)) (hl : close - start < lim') :
+    decodeString a start lim' = some (dec, close) := by
+  unfold decodeString at h ⊢
+  exact go_lim a start lim lim' _ _ _ _ _ h hl
+
+/-- `parseStringSimd` (limit = the length of the buffer it is given) after a successful `parseStringSimdValidateOnly` -/
+theorem decodeString_lim_size (a : Bytes) (lim : Nat) (dec : Bytes) (close : Nat)
+    (h : decodeString a 1 lim = some (dec, close)) : decodeString a 1 a.size = some (dec, close) := by
+  have := (decodeString_bounds a 1 lim dec close h).2.2.2
+  exact decodeString_lim a 1 lim a.size dec close h (by omega)
+
 end SJ.GoStage2
